@@ -347,3 +347,59 @@ func slowUpload(r *vh.Run, i int) {
 	}
 	r.Distinct("slow_upload_cells", fmt.Sprintf("%s/%v/%v", kind, finalBody, pol.Untagged))
 }
+
+// wildListing: a tagged image is also listed by a tagged index - under a media type that is no manifest type (a tool
+// got the descriptor wrong; the registry accepts the index because the content exists).  However the collection looks
+// at that index entry, the tagged image keeps its config and layers.
+func wildListing(r *vh.Run, i int) {
+	kind := []vh.StoreKind{vh.Mem, vh.Dir, vh.MemDir}[i%3]
+	root := ""
+	if kind != vh.Mem {
+		root = r.TempDir("wild")
+		defer vh.RemoveAll(root)
+	}
+	pol := vh.Policy{Untagged: i%2 == 0, Dangling: (i/2)%2 == 0, WithSubj: true, EmptyRepo: false, Grace: -1}
+	srv := vh.New(vh.Conf(kind, root, pol))
+	defer srv.Close()
+	cfg := &vh.Blob{Name: "wcfg", B: []byte(fmt.Sprintf(`{"w":%d}`, i))}
+	cfg.D = vh.DigestOf("sha256", cfg.B)
+	lay := &vh.Blob{Name: "wlayer", B: []byte(fmt.Sprintf("layer of wild trial %d", i))}
+	lay.D = vh.DigestOf("sha256", lay.B)
+	img := vh.MkImage("wimg", "sha256", vh.MTImage, cfg, vh.MTConfig, []vh.Descriptorish{{MT: vh.MTLayer, D: lay.D, Size: len(lay.B)}}, "", "", map[string]string{"w": fmt.Sprint(i)})
+	listAs := []string{vh.MTLayer, "application/octet-stream", vh.MTConfig, "application/vnd.oci.empty.v1+json"}[(i/3)%4]
+	idx := vh.MkIndexX("widx", "sha256", vh.MTIndex, []*vh.Man{img}, "", "", map[string]string{"w": fmt.Sprint(i)}, vh.MkOpt{ListAs: map[string]string{img.D: listAs}})
+	put := func(m *vh.Man, tag string) int {
+		return vh.Do(srv, vh.Req{Method: "PUT", URL: vh.ManifestURL("w", m, tag), H: map[string]string{"Content-Type": m.MT}, Body: m.Raw}).Status
+	}
+	for _, b := range []*vh.Blob{cfg, lay} {
+		vh.Do(srv, vh.Req{Method: "POST", URL: "/v2/w/blobs/uploads/?digest=" + b.D, Body: b.B})
+	}
+	// the order of the two entries in the index differs with the order of the pushes
+	var st1, st2 int
+	if (i/12)%2 == 0 {
+		st1, st2 = put(img, "image"), put(idx, "index")
+	} else {
+		st1 = put(img, "")
+		st2 = put(idx, "index")
+		if st1 == 201 {
+			st1 = put(img, "image")
+		}
+	}
+	if st1 != 201 || st2 != 201 {
+		r.Count("wild_listing_not_established", 1)
+		return
+	}
+	for k := 0; k < 2; k++ {
+		_ = srv.VerifGC(context.Background(), "w")
+	}
+	r.Count("wild_listing_trials", 1)
+	r.Distinct("wild_listing_cells", fmt.Sprintf("%s/%s/%d", kind, listAs, (i/12)%2))
+	wit := map[string]any{"trial": i, "store": kind.String(), "listed_as": listAs, "policy": fmt.Sprintf("%+v", pol)}
+	for _, u := range []string{"/v2/w/manifests/image", "/v2/w/blobs/" + cfg.D, "/v2/w/blobs/" + lay.D} {
+		g := vh.Do(srv, vh.Req{Method: "GET", URL: u, H: map[string]string{"Accept": vh.AcceptAll}})
+		if g.Status != 200 {
+			r.Violation("tagged-image-incomplete:listed-under-wrong-type", fmt.Sprintf("a tagged image that a tagged index also lists (as %s) lost content in a collection: GET %s answers %d (%s store)", listAs, u, g.Status, kind), wit)
+			return
+		}
+	}
+}
